@@ -227,6 +227,8 @@ type exprCtx struct {
 	// edgeOf: render the phis of this block as the value they take on entry from predecessor number edgeIdx
 	edgeBlk *ssa.BasicBlock
 	edgeIdx int
+	// at: the block of the instruction whose operand is being rendered (a phi is read as the value it has there)
+	at *ssa.BasicBlock
 }
 
 // ExprOnEdge renders v as it reads when block blk was entered from its predecessor number k.
@@ -317,6 +319,13 @@ func (e *exprCtx) expr(v ssa.Value) string {
 	defer func() { e.depth-- }()
 	if e.depth > 14 {
 		return "…"
+	}
+	useAt := e.at
+	if in, ok := v.(ssa.Instruction); ok && in.Block() != nil {
+		if _, isPhi := v.(*ssa.Phi); !isPhi {
+			e.at = in.Block()
+			defer func() { e.at = useAt }()
+		}
 	}
 	switch x := v.(type) {
 	case *ssa.Const:
@@ -500,6 +509,13 @@ func (e *exprCtx) expr(v ssa.Value) string {
 		}
 		if e.edgeBlk != nil && x.Block() == e.edgeBlk && e.edgeIdx < len(x.Edges) {
 			return e.expr(x.Edges[e.edgeIdx])
+		}
+		// where it is used, a phi of a flag block can be pinned to one predecessor's value by the side of the flag's
+		// branch the use lies on
+		if useAt != nil && useAt.Parent() == x.Parent() {
+			if r := refineAt(x, useAt); r != ssa.Value(x) {
+				return e.expr(r)
+			}
 		}
 		// a counter that starts at 0 and is incremented by 1 per iteration (`for i := 0; …; i++`) is rendered like the
 		// index go/ssa synthesises for `for i := range s`, so that the two loop forms read alike
